@@ -68,9 +68,11 @@ type Contract struct {
 	NoFrame     bool
 	Cases       []*Clause     // case split: the function is verified once under each case assumption
 	SiteAsserts []*SiteAssert // assertions at the statements whose source line contains a given text
+	Sets        []*Clause     // sets ghost(g) = expr: ghost assignments made at entry (the event the function stands for)
 	Preserves   []string      // with noframe: heap maps (T.f, T.*) the function never writes (checked syntactically)
 	CallAsserts []*SiteAssert // assert_call <callee>: assertions about the arguments at every call of a callee
 	Witnesses   []*Clause     // candidate witnesses (over locals) for exists() in postconditions
+	VolatileInv []*Clause     // volatile_inv expr(v): assumed of every value read from a volatile atomic pointer
 	Volatile    []string      // field suffixes (e.g. ".state.v") that other goroutines may write at any time
 	PostsOnly   bool          // only the postconditions (and loop invariants) are claimed, not the safety obligations
 	Partial     bool          // paths that reach a construct outside the subset are abandoned; every postcondition must be vacuous there
@@ -136,7 +138,7 @@ func newContractDB() *ContractDB {
 	return &ContractDB{Funcs: map[string]*Contract{}, Specs: map[string]*SpecFunc{}, Lemmas: map[string]*Lemma{}, Consts: map[string]string{}, Ghosts: map[string]string{}}
 }
 
-var keywordRe = regexp.MustCompile(`^(package|axiom|func|requires|ensures|modifies|mode|loop|invariant|decreases|hint|unfold|use|induct|may_panic|trusted|abstracts|inline|intonly|partial|posts_only|assert_at|assert_call|preserves|wraps_signed|volatile|witness|cases|property|spec|lemma|struct|global|ghost|noframe|const)\b`)
+var keywordRe = regexp.MustCompile(`^(package|axiom|func|requires|ensures|modifies|mode|loop|invariant|decreases|hint|unfold|use|induct|may_panic|trusted|abstracts|inline|intonly|partial|posts_only|assert_at|assert_call|preserves|sets|volatile_inv|wraps_signed|volatile|witness|cases|property|spec|lemma|struct|global|ghost|noframe|const)\b`)
 
 // stripComment removes a trailing `// ...` that is outside string literals
 func stripComment(s string) string {
@@ -683,6 +685,19 @@ func (db *ContractDB) LoadFile(path, pkgPath string, trusted bool) error {
 					return err
 				}
 				cur.SiteAsserts = append(cur.SiteAsserts, &SiteAssert{Text: text, Cl: cl})
+			case "volatile_inv":
+				cl, err := parseClause(rest, st.src)
+				if err != nil {
+					return err
+				}
+				cur.VolatileInv = append(cur.VolatileInv, cl)
+			case "sets":
+				// sets ghost(g) = expr   (parsed as the comparison ghost(g) == expr)
+				cl, err := parseClause(strings.Replace(rest, "=", "==", 1), st.src)
+				if err != nil {
+					return err
+				}
+				cur.Sets = append(cur.Sets, cl)
 			case "preserves":
 				for _, f := range strings.Split(rest, ",") {
 					if f = strings.TrimSpace(f); f != "" {
